@@ -51,5 +51,11 @@ def main(argv):
     if cmd == "check":
         from . import check
         return check.main(args)
+    if cmd == "explain":
+        import json
+        d = json.load(open(args[0]))
+        print(json.dumps(d, indent=1))
+        print("re-run: %s" % d.get("replay"))
+        return 0
     print("unknown command", cmd)
     return 2
